@@ -20,7 +20,7 @@ inside a //@fn or //@frag block (terminated by //@end):
   //@loop <n> [iter=<name>]    following lines go between the n-th loop head and its brace
   //@proof <block> <pos>       following lines are inserted into <block> at <pos>
         <block> ::= body | loop <n> | if <n> | else <n>
-        <pos>   ::= at-start | at-end | before-stmt <k> | after-stmt <k>
+        <pos>   ::= at-start | at-end | before-stmt <k> | after-stmt <k> | before | after   (the last two: loops only)
   (frag only)
   //@start <regex>             first line of the fragment (regex searched in the fn body)
   //@stop <regex>              last line of the fragment (searched after start)
@@ -629,6 +629,15 @@ def _splice_fn(text, d, where, body_off=None):
         edits.append((toks[blk].start, "\n" + spec + "\n", 0))
     for (blockspec, pos, k, ptext) in d.get("proofs", []):
         blk = _find_block(toks, body_open, blockspec)
+        if pos in ("before", "after"):
+            # relative to a whole loop: right before its keyword / right after its closing brace
+            parts = blockspec.split()
+            if parts[0] != "loop":
+                raise Unsupported("%s: before/after only for loops" % where)
+            li = loops[int(parts[1]) - 1]
+            off = toks[li].start if pos == "before" else toks[match_close(toks, blk)].end
+            edits.append((off, "\n" + ptext + "\n", 0))
+            continue
         if pos == "at-start":
             off = toks[blk].end
         elif pos == "at-end":
@@ -914,7 +923,7 @@ def assemble(template_path, repo):
                     mm = re.match(r"(\d+)(?:\s+iter=(\w+))?$", arg)
                     cur = ("loop", int(mm.group(1)), mm.group(2))
                 elif key == "proof":
-                    mm = re.match(r"(body|loop \d+|if \d+|else \d+)\s+(at-start|at-end|before-stmt|after-stmt)(?:\s+(\d+))?$", arg)
+                    mm = re.match(r"(body|loop \d+|if \d+|else \d+)\s+(at-start|at-end|before-stmt|after-stmt|before|after)(?:\s+(\d+))?$", arg)
                     if not mm:
                         raise Unsupported("bad //@proof %r" % arg)
                     cur = ("proof", mm.group(1), mm.group(2), int(mm.group(3) or 0))
